@@ -334,25 +334,13 @@ func (c *admCase) settle() {
 			// a new attempt was started by this op: wait for it to reach the stub
 			c.attCount[st]++
 			na := &admAttempt{name: fmt.Sprintf("p%s_%d", strings.TrimPrefix(st, "s"), c.attCount[st]), stream: st, state: "held"}
-			var l *admListener
-			if v.StaticEnable && !v.ApiEnable && c.static != nil {
-				l = c.static
-			} else if ll, ok := c.lns[st]; ok {
-				l = ll
-			} else if c.static != nil {
-				l = c.static
-			}
-			if l == nil {
-				c.anomalies = append(c.anomalies, "attempt-without-listener")
+			// the pull dials the URL of the last start_relay_pull for this stream, or the static origin
+			conn, ok := admWaitAny(c.lns[st], c.static)
+			if !ok {
+				c.anomalies = append(c.anomalies, "attempt-never-connected")
 				na.state = "finished"
 			} else {
-				conn, ok := l.waitConn()
-				if !ok {
-					c.anomalies = append(c.anomalies, "attempt-never-connected")
-					na.state = "finished"
-				} else {
-					na.conn = conn
-				}
+				na.conn = conn
 			}
 			c.att[st] = na
 			c.attByName[na.name] = na
@@ -991,6 +979,28 @@ func admReason(desp string) string {
 		return "none"
 	}
 	return strings.ReplaceAll(desp, " ", "_")
+}
+
+// admWaitAny waits for a connection on either listener (nil listeners are skipped).
+func admWaitAny(a, b *admListener) (net.Conn, bool) {
+	var ca, cb chan net.Conn
+	if a != nil {
+		ca = a.pending
+	}
+	if b != nil {
+		cb = b.pending
+	}
+	if ca == nil && cb == nil {
+		return nil, false
+	}
+	select {
+	case c := <-ca:
+		return c, true
+	case c := <-cb:
+		return c, true
+	case <-time.After(admWait):
+		return nil, false
+	}
 }
 
 func admInt(s string) int {
